@@ -37,3 +37,34 @@ Proof. reflexivity. Qed.
 Lemma gen_wiring_Strand_smoothed_means :
   wsrc_Strand_smoothed_means = Some (WTryValueError (w_vector_of "smoothed_means") "").
 Proof. reflexivity. Qed.
+
+(* SecondOrderMeasures.smoothed_column_index *)
+Lemma gen_wiring_SecondOrderMeasures_smoothed_column_index :
+  wsrc_SecondOrderMeasures_smoothed_column_index = Some (WCall (WGlobal "_ColumnIndexSmoothed") [WSelf
+      "_dimensions"; WVar "self"; WSelf "_cube_measures"] []).
+Proof. reflexivity. Qed.
+
+(* SecondOrderMeasures.smoothed_column_proportions *)
+Lemma gen_wiring_SecondOrderMeasures_smoothed_column_proportions :
+  wsrc_SecondOrderMeasures_smoothed_column_proportions = Some (WCall (WGlobal
+      "_ColumnProportionsSmoothed") [WSelf "_dimensions"; WVar "self"; WSelf "_cube_measures"] []).
+Proof. reflexivity. Qed.
+
+(* SecondOrderMeasures.smoothed_columns_scale_mean *)
+Lemma gen_wiring_SecondOrderMeasures_smoothed_columns_scale_mean :
+  wsrc_SecondOrderMeasures_smoothed_columns_scale_mean = Some (WCall (WGlobal "_ScaleMeanSmoothed")
+      [WSelf "_dimensions"; WVar "self"; WSelf "_cube_measures"; WAttr (WGlobal "MO") "COLUMNS"]
+      []).
+Proof. reflexivity. Qed.
+
+(* SecondOrderMeasures.smoothed_means *)
+Lemma gen_wiring_SecondOrderMeasures_smoothed_means :
+  wsrc_SecondOrderMeasures_smoothed_means = Some (WCall (WGlobal "_MeansSmoothed") [WSelf
+      "_dimensions"; WVar "self"; WSelf "_cube_measures"] []).
+Proof. reflexivity. Qed.
+
+(* StripeMeasures.smoothed_means *)
+Lemma gen_wiring_StripeMeasures_smoothed_means :
+  wsrc_StripeMeasures_smoothed_means = Some (WCall (WGlobal "_MeansSmoothed") [WSelf
+      "_rows_dimension"; WVar "self"; WSelf "_cube_measures"] []).
+Proof. reflexivity. Qed.
